@@ -85,9 +85,14 @@ def execute_all(mod, inputs, procs=None):
     global _MOD
     _MOD = mod
     procs = procs or min(16, os.cpu_count() or 4)
-    if len(inputs) < 64 or procs == 1 or getattr(mod, "SERIAL", False):
+    if (len(inputs) < 64 and not getattr(mod, "FORK_PER_INPUT", False)) or procs == 1 or getattr(mod, "SERIAL", False):
         return [_exec_one(i) for i in inputs]
     ctx = multiprocessing.get_context("fork")
+    if getattr(mod, "FORK_PER_INPUT", False):
+        # every input runs in a child forked from this (pristine) parent: nothing one history
+        # leaves behind in module or class state can reach another history
+        with ctx.Pool(procs, maxtasksperchild=1) as pool:
+            return pool.map(_exec_one, inputs, chunksize=1)
     with ctx.Pool(procs) as pool:
         return pool.map(_exec_one, inputs, chunksize=max(1, len(inputs) // (procs * 8)))
 
@@ -182,10 +187,14 @@ def run_check(mod, tier, seed, replay=None):
         violations = []
         known_hits = {}
         reval = []
+        out_of_scope = 0
         for rid, clause in rejects:
             inp, rec = by_id[rid], rec_by_id[rid]
             sig = mod.signature(inp, rec, clause) if hasattr(mod, "signature") else {"clause": clause}
             sig.setdefault("clause", clause.split(" ")[0])
+            if sig.get("out_of_scope"):
+                out_of_scope += 1
+                continue
             hit = None
             for e in findings:
                 if _matches(e, pid, sig):
@@ -252,6 +261,7 @@ def run_check(mod, tier, seed, replay=None):
             "negative_controls_rejected": controls,
             "known_finding_cases": sum(v[1] for v in known_hits.values()),
             "rejected_records": len(rejects),
+            "rejected_for_another_propertys_clause": out_of_scope,
             "tlc_runs": ctx.tlc_runs,
             "checker_cmd": "tlc (tla2tools 1.8.0) via harness/tlc.py; see tlc_runs",
             "notes": ctx.notes,
